@@ -38,6 +38,18 @@ MISSED = {
  'C14/r3-change1': 'a quarter of the single-example cases pass writable numpy arrays; inputs must be byte-identical after evaluate_example',
  'C14/r3-change2': 'single-label targets also as uint8 / int8 / int16 with up to 17 classes',
  'C16/r3-change2': 'checkpoint histories contain saves that die half-way through pickling (also re-saves of an existing round); earlier checkpoints must survive',
+ 'C01/r4-change1': 'client ids rotate among the pool from round to round: an id may come back with another dataset (another size)',
+ 'C01/r4-change2': 'every round of the relations check is applied a second time to the same server state object (cohort reversed)',
+ 'C03/r4-change2': 'features in column-major memory layout (np.asfortranarray raw features, a preprocessor that builds a two-column feature with np.stack(...).T)',
+ 'C04/r4-change2': 'two-step calling forms: an hparams object built first, only some fields overridden by keywords or hparams.replace (num_epochs / num_steps switch between None and a number)',
+ 'C07/r4-change1': 'infinite clip bound admitted (clips nothing)',
+ 'C07/r4-change2': 'weights as narrow numpy integer scalars (uint8, int16) whose total does not fit the dtype',
+ 'C08/r4-change1': 'new check iteration_order_across_processes: every view walked in fresh interpreters with other PYTHONHASHSEED values',
+ 'C08/r4-change2': 'at the end of a history all parent objects are dropped (gc) and the last view is observed again through every access path',
+ 'C09/r4-change1': 'real process death at the close of a written file happens before the close (nothing flushed); every checkpoint close is among the hard crash points',
+ 'C09/r4-change2': 'the interrupted run of the real-process-death check runs under another PYTHONHASHSEED than the completing run',
+ 'C13/r4-change1': 'two seeded client streams of ONE dataset object advanced in turn (shuffled_restart)',
+ 'C13/r4-change2': 'the caller trims and reverses the returned cohort list in place after every sample',
  'C18/r3-change1': 'the 7- and 8-factor (length, block) pairs, left out on compile cost, are executed op by op under jax.disable_jit()',
 }
 for k, why in MISSED.items():
